@@ -16,6 +16,7 @@ open Cherab.Props.C08
 #print axioms axis_order2x
 #print axioms charge_offset
 #print axioms charge_convention
+#print axioms adf11_installed_partial
 #print axioms dictOfList_nodup
 #print axioms scrape_render
 #print axioms extract_finds_block
